@@ -134,9 +134,9 @@ _l1.types = {"new_chunk_chars": "char", "divides": "int"}
 
 cutter = Contract(
     M + "width_aware_slice", "C10", ["s", "start", "end", "replacement_char"], defaults={"replacement_char": " "},
-    shapes=[Shape("columns", dict(s=StrT(plain=False), start=IntT(0), end=IntT(0), replacement_char=ConstT(" ")),
+    shapes=[Shape("columns", dict(s=StrT(plain=False), start=IntT(0), end=IntT(), replacement_char=ConstT(" ")),
                   requires=lambda a: column_definitions(a.s))],
-    requires=lambda a: And(a.start >= 0, a.start <= a.end, T.WCS(a.s) >= 0) if z3.is_expr(a.s) or z3.is_expr(a.start) else True,
+    requires=lambda a: And(a.start >= 0, T.WCS(a.s) >= 0) if z3.is_expr(a.s) or z3.is_expr(a.start) else True,
     ensures=_cut_ensures, result=StrT(plain=False),
     callees={"wcwidth": "ext:formatstring.wcwidth", "interval_overlap": M + "interval_overlap"},
     loops={0: _l0, 1: _l1})
@@ -163,7 +163,7 @@ def bcut_lemmas(s, a, b, atts):
 def _rc_step(g, e, k, old):
     ch = e.t
     s, at = T.ChunkS.s(ch), T.ChunkS.atts(ch)
-    a, b, w = old.index.start, old.index.stop, RCS.rc_w(g)
+    (a, b), w = eff_range(old.index, T.TOTW(T.FmtS.chunks(old.self))), RCS.rc_w(g)
     S.PENDING.extend(bcut_lemmas(s, a - w, b - w, at))
     return RCS.mkrcs(z3.Concat(RCS.rc_cells(g), T.CELLS(T.BCUT(s, a - w, b - w), at)), w + T.WCS(s))
 
@@ -173,19 +173,37 @@ def _rc_tail(total, g2, old):
     requested column lies before it (lemma: RUNCUT splits at any run boundary; L1 for every later run)"""
     rest, restw = fresh("restcut", T.SC), fresh("restw", T.I)
     return And(RCS.rc_cells(total) == z3.Concat(RCS.rc_cells(g2), rest), RCS.rc_w(total) == RCS.rc_w(g2) + restw, restw >= 0,
-               Implies(old.index.stop <= RCS.rc_w(g2), rest == z3.Empty(T.SC)))
+               Implies(eff_range(old.index, T.TOTW(T.FmtS.chunks(old.self)))[1] <= RCS.rc_w(g2), rest == z3.Empty(T.SC)))
 
 
 _RC = Ghost("RC", RCS, lambda: RCS.mkrcs(z3.Empty(T.SC), z3.IntVal(0)), _rc_step,
-            lambda sp, old: RCS.mkrcs(T.RUNCUT(sp.sources[0][0], old.index.start, old.index.stop), T.TOTW(sp.sources[0][0])),
+            lambda sp, old: RCS.mkrcs(T.RUNCUT(sp.sources[0][0], *eff_range(old.index, T.TOTW(T.FmtS.chunks(old.self)))), T.TOTW(sp.sources[0][0])),
             _rc_tail)
+
+
+def eff_range(index, W):
+    """the column range an index denotes on a value W columns wide (from the statement: an int is one column, negative counts from the
+    end, an open bound is the edge; columns past the width do not exist - that part is in RUNCUT / ov)"""
+    sym = any(z3.is_expr(x) for x in (W, getattr(index, "start", None), getattr(index, "stop", None), index))
+    mx = S.Max if sym else max
+    if not S.is_slice(index):
+        pos = z3.If(index < 0, index + W, index) if sym else (index + W if index < 0 else index)
+        return pos, pos + 1
+    st, sp = index.start, index.stop
+    def bound(x, default):
+        if x is None:
+            return default
+        if z3.is_expr(x) or z3.is_expr(W):
+            return z3.If(x < 0, mx(0, W + x), x)
+        return max(0, W + x) if x < 0 else x
+    return bound(st, 0), bound(sp, W)
 
 
 def _walk_requires(a):
     if not z3.is_expr(a.self):
         return True
     xs = T.FmtS.chunks(a.self)
-    return [And(a.index.start >= 0, a.index.start <= a.index.stop), MEASURABLE(xs), T.WCS(T.TEXT(xs)) >= 0,
+    return [MEASURABLE(xs), T.WCS(T.TEXT(xs)) >= 0, T.TOTW(xs) >= 0,
             T.BASEF(EMPTY) == EMPTY, T.WCS(EMPTY) == 0,
             lambda i: Implies(And(i >= 0, i < z3.Length(xs)), T.WCS(T.ChunkS.s(xs[i])) >= 0)]
 
@@ -197,7 +215,7 @@ def _parts(x):
 
 
 def _inv_walk(L):
-    a, b = L.old.index.start, L.old.index.stop
+    a, b = eff_range(L.old.index, T.TOTW(T.FmtS.chunks(L.old.self)))
     parts = L.parts
     w = RCS.rc_w(L.RC)
     return [L.index.start == a, L.index.stop == b, L.counter == w, w >= 0,
@@ -208,12 +226,14 @@ def _walk_ensures(a, r):
     if z3.is_expr(a.self):
         xs, ys = T.FmtS.chunks(a.self), T.FmtS.chunks(r)
         st = getattr(a, "final_state", None)
-        return [("post.shows_exactly_the_requested_columns", T.BVIEW(ys) == T.RUNCUT(xs, a.index.start, a.index.stop)),
-                ("post.width_is_the_number_of_requested_columns_that_exist", T.TOTW(ys) == ov(0, T.TOTW(xs), a.index.start, a.index.stop))]
+        ea, eb = eff_range(a.index, T.TOTW(xs))
+        return [("post.shows_exactly_the_requested_columns", T.BVIEW(ys) == T.RUNCUT(xs, ea, eb)),
+                ("post.width_is_the_number_of_requested_columns_that_exist", T.TOTW(ys) == ov(0, T.TOTW(xs), ea, eb))]
     from cwcwidth import wcswidth
-    return [("post.shows_exactly_the_requested_columns", py_bview(r) == py_runcut(a.self, a.index.start, a.index.stop)),
-            ("post.width_is_the_number_of_requested_columns_that_exist",
-             sum(wcswidth(c.s) for c in r.chunks) == ov(0, sum(wcswidth(c.s) for c in a.self.chunks), a.index.start, a.index.stop))]
+    W = sum(wcswidth(c.s) for c in a.self.chunks)
+    ea, eb = eff_range(a.index, W)
+    return [("post.shows_exactly_the_requested_columns", py_bview(r) == py_runcut(a.self, ea, eb)),
+            ("post.width_is_the_number_of_requested_columns_that_exist", sum(wcswidth(c.s) for c in r.chunks) == ov(0, W, ea, eb))]
 
 
 fs_width = Contract(M + "FmtStr.width", "C10", ["self"], kind="property", shapes=[],
@@ -223,8 +243,14 @@ fs_width = Contract(M + "FmtStr.width", "C10", ["self"], kind="property", shapes
 
 run_walk = Contract(
     M + "FmtStr.width_aware_slice", "C10", ["self", "index"], kind="method",
-    shapes=[Shape("columns_a_b", dict(self=FmtT(), index=SliceT(IntT(0), IntT(0), None)))],
+    shapes=[Shape("one_column", dict(self=FmtT(), index=IntT()))] +
+           [Shape(f"columns_{'a' if s else 'open'}_{'b' if e else 'open'}", dict(self=FmtT(), index=SliceT(IntT() if s else None, IntT() if e else None, None)))
+            for s in (1, 0) for e in (1, 0)],
     requires=_walk_requires, ensures=_walk_ensures, result=FmtT(),
+    raises={"IndexError": lambda a: (False if S.is_slice(a.index) else
+                                     (Not(And(-T.TOTW(T.FmtS.chunks(a.self)) <= a.index, a.index < T.TOTW(T.FmtS.chunks(a.self)))) if z3.is_expr(a.self)
+                                      else not (-sum(__import__("cwcwidth").wcswidth(c.s) for c in a.self.chunks) <= a.index
+                                                < sum(__import__("cwcwidth").wcswidth(c.s) for c in a.self.chunks))))},
     callees={"wcswidth": "ext:formatstring.wcswidth", "normalize_slice": M + "normalize_slice", "fmtstr": M + "fmtstr",
              "width_aware_slice": M + "width_aware_slice"},
     loops={0: Loop(ghosts=[_RC], inv=_inv_walk)})
